@@ -139,6 +139,33 @@ def _as_quantifier(body):
     return [ret]
 
 
+def _as_genexpr(body):
+    """`for T in IT: [if F: continue]* [if P:] yield E`  ->  [return (E for T in IT if not F .. if P)], else None"""
+    if len(body) != 1 or not isinstance(body[0], ast.For) or body[0].orelse:
+        return None
+    loop = body[0]
+    filters = []
+    stmts = list(loop.body)
+    while stmts:
+        st = stmts[0]
+        if isinstance(st, ast.If) and not st.orelse and len(st.body) == 1 and isinstance(st.body[0], ast.Continue) and len(stmts) > 1:
+            filters.append(_negate(st.test))
+            stmts = stmts[1:]
+        elif isinstance(st, ast.If) and not st.orelse and len(stmts) == 1:
+            filters.append(st.test)
+            stmts = list(st.body)
+        else:
+            break
+    if len(stmts) != 1 or not (isinstance(stmts[0], ast.Expr) and isinstance(stmts[0].value, ast.Yield) and stmts[0].value.value is not None):
+        return None
+    if any(isinstance(n, (ast.Yield, ast.YieldFrom)) for f in filters for n in ast.walk(f)):
+        return None
+    gen = ast.GeneratorExp(elt=stmts[0].value.value, generators=[ast.comprehension(target=loop.target, iter=loop.iter, ifs=filters, is_async=0)])
+    ret = ast.copy_location(ast.Return(value=ast.copy_location(gen, loop)), loop)
+    ast.fix_missing_locations(ret)
+    return [ret]
+
+
 def _tree_to_expr(stmts):
     """boolean expression with the truth value of a pure decision tree (only `if` and `return <expr>`); None if it is not one.
     Only valid where the truth value alone matters (test positions)."""
@@ -269,6 +296,14 @@ class _Callee:
         if body and isinstance(body[0], ast.Expr) and isinstance(body[0].value, ast.Constant) and isinstance(body[0].value.value, str):
             body = body[1:]
         body = _merge_leading_temps(body, set(x.arg for x in a.args + a.kwonlyargs))
+        self.is_generator = self.reason == 'generator'
+        if self.is_generator:
+            ge = _as_genexpr(body)
+            if ge is not None:
+                # a generator that is one filtered loop around one yield: the generator expression it stands for
+                body = ge
+                self.reason = None
+                self.is_generator = False
         q = _as_quantifier(body)
         self.quantified = q is not None
         if q is not None:
@@ -537,6 +572,21 @@ class Inliner:
                 c.body = self.block(c.body, depth)
         if depth >= MAX_DEPTH:
             return [st]
+        if isinstance(st, ast.For) and isinstance(st.iter, ast.Call) and not getattr(st.iter, '_no_inline', False):
+            nm = self.call_name(st.iter)
+            callee = self.callees.get(nm) if nm else None
+            if callee is not None and getattr(callee, 'is_generator', False):
+                try:
+                    new = self.inline_generator_loop(st, callee, depth)
+                    self.counter += 1
+                    self.report.append(('inlined', callee.qual, getattr(self.g, 'name', '?'), 'generator loop'))
+                    for new_st in new:
+                        for n_ in ast.walk(new_st):
+                            n_._inl = True
+                    return self.block(new, depth + 1)
+                except CannotInline as e:
+                    self.report.append(('left', callee.qual, getattr(self.g, 'name', '?'), str(e)))
+                    st.iter._no_inline = True
         pre = []
         for _ in range(8):
             call, cond = self.find_call(st)
@@ -737,6 +787,43 @@ class Inliner:
         rec(g, [])
         return state['found'] and not state['live']
 
+    def inline_generator_loop(self, st, callee, depth):
+        """`for T in gen(args): BODY` with a generator helper whose yields are plain statements: the helper's body with every
+        `yield E` replaced by `T = E; BODY`"""
+        if st.orelse or _has_loop_jump_own(st.body):
+            raise CannotInline('generator consumed by a loop with break / continue / else')
+        wrap = ast.Module(body=callee.body, type_ignores=[])
+        ys = [n for n in _own_nodes(wrap) if isinstance(n, (ast.Yield, ast.YieldFrom))]
+        yst = [n for n in _own_nodes(wrap) if isinstance(n, ast.Expr) and isinstance(n.value, ast.Yield) and n.value.value is not None]
+        if len(ys) != len(yst) or not ys or len(ys) > 3 or any(isinstance(n, ast.YieldFrom) for n in ys):
+            raise CannotInline('generator with yields that are not plain statements')
+        if any(isinstance(n, ast.Return) for n in _own_nodes(wrap)):
+            raise CannotInline('generator with return')
+        saved = callee.reason
+        callee.reason = None
+        try:
+            self._site = st
+            prelude, body = self.instantiate(callee, st.iter, depth, None)
+        finally:
+            callee.reason = saved
+
+        def rec(stmts):
+            out = []
+            for s_ in stmts:
+                if isinstance(s_, ast.Expr) and isinstance(s_.value, ast.Yield):
+                    out.append(ast.copy_location(ast.Assign(targets=[_copy_tree(st.target)], value=s_.value.value, type_comment=None), st))
+                    out.extend(_copy_tree(b) for b in st.body)
+                    continue
+                for fld in ('body', 'orelse', 'finalbody'):
+                    blk = getattr(s_, fld, None)
+                    if isinstance(blk, list) and blk and isinstance(blk[0], ast.stmt) and not isinstance(s_, (ast.FunctionDef, ast.AsyncFunctionDef, ast.ClassDef)):
+                        setattr(s_, fld, rec(blk))
+                for h in getattr(s_, 'handlers', []) or []:
+                    h.body = rec(h.body)
+                out.append(s_)
+            return out
+        return self.fix(prelude + rec(body))
+
     def instantiate(self, callee, call, depth, targets=None):
         """-> (prelude statements, body statements with names substituted)"""
         binding = callee.bind(call)
@@ -886,6 +973,22 @@ class Inliner:
         for s in stmts:
             ast.fix_missing_locations(s)
         return stmts
+
+
+def _has_loop_jump_own(stmts):
+    """break / continue that belong to the loop whose body `stmts` is"""
+    for s_ in stmts:
+        if isinstance(s_, (ast.Break, ast.Continue)):
+            return True
+        if isinstance(s_, (ast.For, ast.While, ast.AsyncFor, ast.FunctionDef, ast.AsyncFunctionDef, ast.ClassDef)):
+            continue
+        for fld in ('body', 'orelse', 'finalbody'):
+            if _has_loop_jump_own(getattr(s_, fld, []) or []):
+                return True
+        for h in getattr(s_, 'handlers', []) or []:
+            if _has_loop_jump_own(h.body):
+                return True
+    return False
 
 
 def _inside_node(x, top):
